@@ -2,7 +2,7 @@
 # usage: tools/try_seed.sh <patch.diff> <Cxx> [<Cxx>...]  — applies a seeded change to /repo, runs the checks, reverts.
 P=$1; shift
 cd /repo && git status --porcelain | grep -q . && { echo "/repo not clean"; exit 2; }
-git apply "$P" || git apply -3 "$P" || { echo "patch does not apply"; exit 2; }
+git apply "$P" || { git -C /repo checkout -- . ; echo "patch does not apply"; exit 2; }
 cd /verif
 rm -rf /verif/.work/evidence.bak && cp -r /verif/evidence /verif/.work/evidence.bak
 for c in "$@"; do
